@@ -16,32 +16,39 @@
     C04_method_sound                  `_is_method` ⇒ first parameter is a class/interface/record/union/boxed of
     C04_method_prefix_is_type_prefix  THIS namespace ∧ (annotated ∨ symbol starts with the type's prefix)
     C04_method_owner                  `_setup_method` hangs the function on the type of its first parameter only
-    C04_method_ctor_sound_partial     `_is_constructor` ⇒ origin is of this namespace, registered under the
+    C04_method_ctor_sound             `_is_constructor` ⇒ origin is of this namespace, registered under the
                                       longest type prefix (or annotated), return type = origin or an ancestor
-    C04_method_name_partial           the cut that names methods / constructors yields the remainder
+    C04_method_name_partial           the `symbol.find` cut that names un-annotated methods (and annotated
+                                      constructors without type-prefix match) yields the remainder
+    C04_ctor_name_annotated           … an annotated constructor without type-prefix match is cut only when its
+                                      stripped symbol LEADS with the return type's prefix, else keeps its name
     C04_once, C04_once_operations     uniqueness invariant of the namespace container along the pipeline model
     C04_only_public_symbols           every function / constant element the pipeline model describes has a C name
                                       without leading `_` that the current namespace claims
     C04_static_sound, C04_ctor_name   static functions / constructors hang on the longest type prefix and are
                                       named by the remainder
     C04_to_underscores(_acronym)      CamelCase words → joined by `_`; the acronym rule; C04_classes
-  Witnesses of confirmed defects of the unchanged code (each replayed on the real code by
+  Witness of the one confirmed defect of the unchanged code (replayed on the real code by
   harness/c04.py, see PENDING_FINDINGS there):
-    C04_ctor_sound_counterexample, C04_method_ctor_sound_full_fails, C04_method_name_counterexample,
-    C04_pipeline_witness
+    C04_method_name_counterexample, C04_pipeline_witness
 
   Hypotheses beyond the property's own wording:
   * `C04_strip_*`: the symbol is not empty after removing a leading underscore (the real code
     raises IndexError on `name[0]` there: `SplitErr.emptyName`); identifiers are ASCII where
     `str.isupper/upper/lower` are involved (model definitions `firstIsUpper`, `upper`, `lower`).
-  * `C04_method_ctor_sound_partial`: hypothesis `hex` excludes exactly the input class of the
-    confirmed defect: the ancestor walk of `_is_constructor` left its loop at GObject.Object
-    although the return type is some other class.  Full statement: `C04_method_ctor_sound_full`
-    (refuted by `C04_method_ctor_sound_full_fails`).
-  * `C04_method_name_partial`: hypothesis `hfind` excludes exactly the input class of the second
+  * `C04_method_ctor_sound`: none (full statement since /repo 5ba500c, 11d283b).  The model keeps
+    `Walk.noParentAttr` → `CtorVerdict.crash` for a class whose resolved parent is a record / union /
+    boxed node (the real walk then raises AttributeError); a GType dump cannot contain such a class.
+  * `C04_method_name_partial`: hypothesis `hfind` excludes exactly the input class of the remaining
     confirmed defect: the stripped symbol occurs earlier in the symbol than at its own position
     (`str.find` returns the leftmost occurrence).  Full statement: `C04_method_name_full`.
-  * `C04_only_public_symbols`, `C04_static_sound`, `C04_ctor_name`, `C04_method_owner`: none.
+    Still affected in /repo HEAD: the name of every UN-annotated method (`_setup_method`, both the
+    moved method and the moved-to compatibility copy) and of an annotated constructor whose stripped
+    symbol no type prefix splits but which leads with the return type's prefix
+    (`_get_constructor_name`, see `C04_ctor_name_annotated`).  NOT affected: annotated methods
+    (`C04_method_owner`), constructors and static functions named through `_split_uscored_by_type`
+    (`C04_ctor_name`, `C04_static_sound`), top-level functions.
+  * `C04_only_public_symbols`, `C04_static_sound`, `C04_ctor_name`, `C04_ctor_name_annotated`, `C04_method_owner`: none.
   * `C04_once`: none (the model's own `dupCid` guard turns "two declarations share a C identifier",
     which C forbids, into an error outcome instead of a hypothesis).
   * `C04_to_underscores*`: words are `[A-Z][a-z0-9]+` (at least one lower-case/digit character
@@ -67,7 +74,7 @@ theorem C04_pattern_shape :
       ["name=_upperstr_pat1.sub(\\1_\\2,name,all)", "name=_upperstr_pat2.sub(\\1_\\2,name,all)",
        "return name"]
     ∧ Gen.guessConstructorTests = ["endswith(_new)", "in(_new_)", "endswith(_newv)"]
-    ∧ Gen.ctorWalkRoots = ["GObject.Object"]
+    ∧ Gen.ctorWalkRoots = []
     ∧ Gen.typeMetaTests = ["endswith(_get_type)", "endswith(_get_gtype)"]
     ∧ Gen.reUpper = [(65, 90)] ∧ Gen.reLowerDigit = [(48, 57), (97, 122)] := by
   decide
@@ -365,34 +372,20 @@ theorem C04_method_owner (env : Env) (st : NsState) (f : Node) (sub : Str) (firs
     intro hm
     simp [hm]
 
-/-- what the property demands of a constructor's return type -/
+/-- what the property demands of a constructor's return type: the constructed type itself or,
+    when both are classes, one of its ancestors (GI names met along the `parent_type` links) -/
 def CtorReturnOk (env : Env) (st : NsState) (target origin : Target) : Prop :=
-  if target.kind = Kind.cls then
-    giName env target ∈ ancestorChain env st (walkFuel env st) (some origin)
-  else origin.ns = target.ns ∧ origin.name = target.name
-
-/-- the constructor clause at full strength (FALSE for the unchanged code, see
-    `C04_ctor_sound_counterexample`) -/
-def C04_method_ctor_sound_full : Prop :=
-  ∀ (env : Env) (st : NsState) (f : Node) (sub : Str), isConstructor env st f sub = true →
-    ∃ target origin, lookupCT env st f.ret = some target ∧
-      getConstructorClass env st f sub = some origin ∧ origin.ns = NsRef.cur ∧
-      ((∃ owner rest, splitUscoredByType (typeMap st) sub = some (owner, rest) ∧
-          (st.get owner).map targetOfNode = some origin) ∨ f.isCtor = true) ∧
-      CtorReturnOk env st target origin
+  (origin.ns = target.ns ∧ origin.name = target.name) ∨
+  (target.kind = Kind.cls ∧ origin.kind = Kind.cls ∧
+    giName env target ∈ ancestorChain env st (walkFuel env st) (some origin))
 
 /-- A function becomes a constructor only of a type of this namespace that is registered under
     the longest type prefix of its stripped symbol (or, when annotated `(constructor)` and no
     type prefix matches, of its return type), and its return type is that type or — for
-    classes — one of its ancestors, PROVIDED the ancestor walk did not leave its loop at
-    GObject.Object with a return type other than GObject.Object (the excluded class is the
-    confirmed defect `C04_ctor_sound_counterexample`). -/
-theorem C04_method_ctor_sound_partial (env : Env) (st : NsState) (f : Node) (sub : Str)
-    (h : isConstructor env st f sub = true)
-    (hex : ∀ target origin, lookupCT env st f.ret = some target →
-      getConstructorClass env st f sub = some origin → target.kind = Kind.cls →
-      ancestorWalk env st target (walkFuel env st) (some origin) = .reachedRoot →
-      giName env target = rootClass) :
+    classes — one of its ancestors.  (Full statement since /repo 5ba500c + 11d283b: the walk
+    goes up to the root and only starts at a class.) -/
+theorem C04_method_ctor_sound (env : Env) (st : NsState) (f : Node) (sub : Str)
+    (h : isConstructor env st f sub = true) :
     ∃ target origin, lookupCT env st f.ret = some target ∧
       getConstructorClass env st f sub = some origin ∧ origin.ns = NsRef.cur ∧
       ctorCapable target = true ∧ ctorCapable origin = true ∧
@@ -430,19 +423,18 @@ theorem C04_method_ctor_sound_partial (env : Env) (st : NsState) (f : Node) (sub
                   getConstructorClass_some ho, ?_⟩
                 unfold returnVerdict at hv
                 unfold CtorReturnOk
-                by_cases hc : target.kind = Kind.cls
-                · rw [if_pos hc]
-                  rw [if_pos (by simp [hc])] at hv
-                  cases hw : ancestorWalk env st target (walkFuel env st) (some origin) with
+                by_cases hc : (target.kind == Kind.cls && origin.kind == Kind.cls) = true
+                · rw [if_pos hc] at hv
+                  simp only [Bool.and_eq_true, beq_iff_eq] at hc
+                  right
+                  refine ⟨hc.1, hc.2, ?_⟩
+                  cases hw : ancestorWalk env st target (walkFuel env st) origin with
                   | found => exact walk_found _ _ hw
-                  | reachedRoot =>
-                    rw [hex target origin ht ho hc hw]
-                    exact walk_reachedRoot _ _ hw
                   | broken => rw [hw] at hv; cases hv
                   | noParentAttr => rw [hw] at hv; cases hv
                   | exhausted => rw [hw] at hv; cases hv
-                · rw [if_neg hc]
-                  rw [if_neg (by simp [hc])] at hv
+                · rw [if_neg hc] at hv
+                  left
                   by_cases hsame : (origin.ns == target.ns && origin.name == target.name) = true
                   · simpa using hsame
                   · rw [if_neg hsame] at hv; cases hv
@@ -496,6 +488,23 @@ theorem C04_ctor_name (env : Env) (st : NsState) (f : Node) (sub owner rest : St
   unfold getConstructorName getConstructorClass
   rw [h]
   exact ⟨rfl, rfl⟩
+
+/-- When NO type prefix splits the stripped symbol, only an annotated `(constructor)` gets here
+    (it is then filed under its return type): it is cut after the return type's prefix only when
+    the stripped symbol LEADS with that prefix and `_` (since /repo 54063d6; the cut itself is
+    still the `symbol.find` cut of `C04_method_name_partial`), otherwise it keeps its
+    namespace-stripped name. -/
+theorem C04_ctor_name_annotated (env : Env) (st : NsState) (f : Node) (sub : Str) (t : Target)
+    (h : splitUscoredByType (typeMap st) sub = none) (ht : lookupCT env st f.ret = some t) :
+    getConstructorClass env st f sub = (if f.isCtor then some t else none) ∧
+    getConstructorName env st f sub =
+      if f.isCtor && startsWith sub (getUscoredPrefix t sub ++ ['_']) then
+        (nameAfterPrefix f.cid sub (getUscoredPrefix t sub)).getD f.name
+      else f.name := by
+  unfold getConstructorName getConstructorClass
+  rw [h]
+  simp only [ht]
+  cases f.isCtor <;> simp
 
 end GIVerif.Naming
 
@@ -600,39 +609,38 @@ def wSt : NsState :=
     ("Label".toList, wClass 2 "Label" "label" (.cur, "Widget".toList)),
     (wFn.name, wFn)], []⟩
 
-/-- CONFIRMED DEFECT (replayed on the real code by harness/c04.py): a `*_new` function of
-    `Gtk.Button` returning the unrelated class `Gtk.Label` is accepted as a constructor of
-    Button — `Gtk.Label` is not among Button's ancestors. -/
-theorem C04_ctor_sound_counterexample :
-    isConstructor wEnv wSt wFn "button_new_label".toList = true ∧
+/-- regression of the defect repaired by /repo 5ba500c: a `*_new` function of `Gtk.Button` returning
+    the unrelated class `Gtk.Label` is NOT a constructor of Button (`Gtk.Label` is not among
+    Button's ancestors); it is hung on Button as the static function `new_label` -/
+example :
+    isConstructor wEnv wSt wFn "button_new_label".toList = false ∧
     (lookupCT wEnv wSt wFn.ret).map (giName wEnv) = some "Gtk.Label".toList ∧
     (getConstructorClass wEnv wSt wFn "button_new_label".toList).map
         (fun o => ancestorChain wEnv wSt (walkFuel wEnv wSt) (some o)) =
-      some ["Gtk.Button".toList, "Gtk.Widget".toList, "GObject.Object".toList] := by
+      some ["Gtk.Button".toList, "Gtk.Widget".toList, "GObject.Object".toList] ∧
+    ((pairFunction wEnv wSt wFn).toOption.map (fun st => st.owned.map (fun o => (o.owner, o.role, o.fn.name)))) =
+      some [("Button".toList, Role.static, "new_label".toList)] := by
   decide +kernel
 
-theorem C04_method_ctor_sound_full_fails : ¬ C04_method_ctor_sound_full := by
-  intro hfull
-  obtain ⟨target, origin, ht, ho, _, _, hret⟩ :=
-    hfull wEnv wSt wFn "button_new_label".toList (by decide +kernel)
-  have ht' : lookupCT wEnv wSt wFn.ret = some (targetOfNode (wClass 2 "Label" "label" (.cur, "Widget".toList))) := by
-    decide +kernel
-  have ho' : getConstructorClass wEnv wSt wFn "button_new_label".toList =
-      some (targetOfNode (wClass 1 "Button" "button" (.cur, "Widget".toList))) := by
-    decide +kernel
-  rw [ht'] at ht
-  rw [ho'] at ho
-  cases ht
-  cases ho
-  unfold CtorReturnOk at hret
-  revert hret
+/-- `GObject *gtk_button_new_object (void)`: the root class itself is still an accepted ancestor -/
+example :
+    isConstructor wEnv wSt { wFn with name := "button_new_object".toList, cid := "gtk_button_new_object".toList,
+                                       ret := ⟨"GObject".toList, 1, false⟩ } "button_new_object".toList = true := by
   decide +kernel
 
-/-- the hypothesis of `C04_method_ctor_sound_partial` is satisfiable and the theorem is not
-    vacuous: `GtkWidget *gtk_button_new (void)` is a constructor of Button returning an ancestor -/
+/-- `C04_method_ctor_sound` is not vacuous: `GtkWidget *gtk_button_new (void)` is a constructor of Button returning an ancestor -/
 example :
     isConstructor wEnv wSt { wFn with name := "button_new".toList, cid := "gtk_button_new".toList,
                                        ret := ⟨"GtkWidget".toList, 1, false⟩ } "button_new".toList = true := by
+  decide +kernel
+
+/-- non-vacuity of `C04_ctor_name_annotated`, and regression of the defect repaired by /repo 54063d6:
+    the annotated `GtkButton *gtk_make_button (void)` keeps its namespace-stripped name -/
+example :
+    splitUscoredByType (typeMap wSt) "make_button".toList = none ∧
+    getConstructorName wEnv wSt { wFn with name := "make_button".toList, cid := "gtk_make_button".toList,
+                                           isCtor := true, ret := ⟨"GtkButton".toList, 1, false⟩ }
+      "make_button".toList = "make_button".toList := by
   decide +kernel
 
 /-! non-vacuity of the naming theorems -/
